@@ -190,6 +190,13 @@ class C10(props.Prop):
             v.sample = {'opts': spec['opts'], 'scenario': scen,
                         'status': res.status, 'outcome': res.outcome}
             return v
+        if rec.counters.get('self_limit.cpu'):
+            v.violate('limit-on-ddsmt', 'C10:cpu-limit-on-ddsmt-process',
+                      f'a CPU-time limit was set on a ddSMT process itself '
+                      f'({rec.counters["self_limit.cpu"]} times): the kernel '
+                      f'kills that process after so many seconds of its own '
+                      f'work - a lost pool worker stalls the run, a lost '
+                      f'main process ends it')
         if res.outcome == 'exception':
             # no fault is injected into ddSMT itself here: whatever the
             # commands did (hang, die, exceed a limit - on the golden runs
